@@ -71,7 +71,7 @@ type provState struct {
 // Origins computes the backward provenance leaves of v (defined in fn).
 func (p *Prog) Origins(v ssa.Value, opts ProvOpts) []Origin {
 	if opts.MaxDepth == 0 {
-		opts.MaxDepth = 12
+		opts.MaxDepth = 400 // termination comes from the visited set; the bound only guards against bugs
 	}
 	st := &provState{p: p, opts: opts, seen: map[provKey]bool{}}
 	st.walk(v, 0)
@@ -312,7 +312,7 @@ func (st *provState) expandCallee(call *ssa.Call, callee *ssa.Function, idx int,
 		st.out = append(st.out, Origin{Kind: "call", Fn: call.Parent(), Val: v, Callee: callee, Pos: call.Pos()})
 		return
 	}
-	if len(st.frames) > 24 {
+	if len(st.frames) > 64 {
 		st.leaf("other", v, nil, "context depth")
 		return
 	}
